@@ -6,6 +6,7 @@ import (
 	"fmt"
 	"io"
 	"strings"
+	"time"
 	"unicode/utf8"
 
 	"github.com/talostrading/sonic/codec/websocket"
@@ -540,7 +541,33 @@ func (x *c08Run) step(i, sym int) {
 			err = s.Write(payload, websocket.TypeText)
 		case lcAsyncWrite:
 			calls := 0
+			// sometimes the transport holds the write (socket not writable) and a local AsyncClose is started
+			// before it completes: the Close goes after the message, exactly once
+			overlap := m.state == mActive && r.Chance(1, 4)
+			if overlap {
+				t.HoldWrites = true
+			}
 			s.AsyncWrite(payload, websocket.TypeText, func(e error) { calls++; err = e })
+			if overlap {
+				code := []uint16{1000, 1001, 3000}[r.Intn(3)]
+				x.c.Logf("   (the write is held by the transport) AsyncClose(%d) before it completes", code)
+				ccalls := 0
+				var cerr error
+				s.AsyncClose(websocket.CloseCode(code), "", func(e error) { ccalls++; cerr = e })
+				t.ReleaseWrites()
+				t.Pump()
+				if calls != 1 || ccalls != 1 || err != nil || cerr != nil {
+					x.fail("close-during-held-write", "%s %s then AsyncClose before the write completed: write callback %d times (%v), close callback %d times (%v)", label, name, calls, err, ccalls, cerr)
+					return
+				}
+				m.all = append(m.all, c08Owed{op, payload, "application frame"})
+				m.state = mClosedByUs
+				m.all = append(m.all, c08Owed{wsref.OpClose, []byte{byte(code >> 8), byte(code)}, fmt.Sprintf("local close %d during a held write", code)})
+				m.flush()
+				x.c.Count("close_started_during_held_write", 1)
+				x.verify(name + "+AsyncClose-overlap " + label + " from " + stateBefore.String())
+				return
+			}
 			t.Pump()
 			if calls != 1 {
 				x.fail("write-callback-count", "%s %s: callback invoked %d times", label, name, calls)
@@ -711,8 +738,9 @@ func init() {
 			"what a transport *error* (not EOF) leaves behind is not prescribed: the sequence is not compared further",
 			"asynchronous message reads are only started when the supplied frames terminate them (no parked reads across steps)",
 		},
-		NumCases: func(tier, build string) int { return c08NumCases(tier) },
-		Floor:    func(tier string) int { return vf.Tiered(tier, 2000, 50000) },
-		Run:      runC08,
+		NumCases:    func(tier, build string) int { return c08NumCases(tier) },
+		Floor:       func(tier string) int { return vf.Tiered(tier, 2000, 50000) },
+		CaseTimeout: 30 * time.Second,
+		Run:         runC08,
 	})
 }
